@@ -32,8 +32,30 @@ class Obligation:
         return s.to_smt2()
 
 
+def _is_linear(e, _cache={}):
+    """No product of two non-constant terms anywhere in e (cheap facts for the pruning solver)."""
+    k = e.get_id()
+    todo = [e]
+    seen = set()
+    while todo:
+        t = todo.pop()
+        i = t.get_id()
+        if i in seen:
+            continue
+        seen.add(i)
+        if z3.is_quantifier(t):
+            return False
+        if z3.is_app(t):
+            if z3.is_mul(t):
+                nonconst = [a for a in t.children() if not (z3.is_rational_value(a) or z3.is_int_value(a))]
+                if len(nonconst) > 1:
+                    return False
+            todo.extend(t.children())
+    return True
+
+
 class PathCtx:
-    BRANCH_TIMEOUT_MS = 3000
+    BRANCH_TIMEOUT_MS = 1500
 
     def __init__(self, decisions=(), budget=None):
         self.pc = list(CONST_FACTS)
@@ -48,8 +70,14 @@ class PathCtx:
         self.taints = []
         self.solver = z3.Solver()
         self.solver.set("timeout", self.BRANCH_TIMEOUT_MS)
+        # pruning solver over the linear facts only: unsat there => unsat with everything (sound pruning);
+        # it answers in milliseconds where the full path condition (nonlinear reals) takes seconds
+        self.lin = z3.Solver()
+        self.lin.set("timeout", 1000)
         for f in self.pc:
             self.solver.add(f)
+            if _is_linear(f):
+                self.lin.add(f)
         self.trace = []            # branch labels taken (for reporting)
         self.frozen = {}           # id(container) -> description (parameter-owned mutable containers)
         self.dirty_roots = set()
@@ -81,6 +109,8 @@ class PathCtx:
         self.pc.append(f)
         self.pc_why.append(why)
         self.solver.add(f)
+        if _is_linear(f):
+            self.lin.add(f)
 
     def note(self, label):
         self.assumptions.add(label)
@@ -90,6 +120,13 @@ class PathCtx:
 
     # -- branching --------------------------------------------------------------------
     def feasible(self, cond):
+        if _is_linear(cond):
+            self.lin.push()
+            self.lin.add(cond)
+            r = self.lin.check()
+            self.lin.pop()
+            if r == z3.unsat:
+                return False
         self.solver.push()
         self.solver.add(cond)
         r = self.solver.check()
@@ -107,8 +144,20 @@ class PathCtx:
             d = self.decisions[self.pos]
             self.pos += 1
         else:
-            t_ok = self.feasible(cond)
-            f_ok = self.feasible(z3.Not(cond))
+            t_ok = f_ok = None
+            if _is_linear(cond):
+                # decided by the linear facts alone?  (pc is satisfiable on a live path, so if the
+                # linear facts exclude one side the other side is the feasible one)
+                self.lin.push(); self.lin.add(cond); r1 = self.lin.check(); self.lin.pop()
+                if r1 == z3.unsat:
+                    t_ok, f_ok = False, True
+                else:
+                    self.lin.push(); self.lin.add(z3.Not(cond)); r2 = self.lin.check(); self.lin.pop()
+                    if r2 == z3.unsat:
+                        t_ok, f_ok = True, False
+            if t_ok is None:
+                t_ok = self.feasible(cond)
+                f_ok = self.feasible(z3.Not(cond))
             if t_ok and f_ok:
                 self.new_forks.append(self.decisions + [False])
                 d = True
@@ -125,6 +174,8 @@ class PathCtx:
         self.pc.append(f)
         self.pc_why.append(f"branch:{label}")
         self.solver.add(f)
+        if _is_linear(f):
+            self.lin.add(f)
         return d
 
     def is_valid(self, cond):
@@ -134,6 +185,13 @@ class PathCtx:
         cond = conc(cond)
         if isinstance(cond, bool):
             return cond
+        if _is_linear(cond):
+            self.lin.push()
+            self.lin.add(z3.Not(cond))
+            r = self.lin.check()
+            self.lin.pop()
+            if r == z3.unsat:
+                return True
         self.solver.push()
         self.solver.add(z3.Not(cond))
         r = self.solver.check()
@@ -149,12 +207,14 @@ class PathCtx:
                 self_.n = len(ctx.pc)
                 self_.dc = dict(ctx.div_cache)
                 ctx.solver.push()
+                ctx.lin.push()
 
             def __exit__(self_, *a):
                 del ctx.pc[self_.n:]
                 del ctx.pc_why[self_.n:]
                 ctx.div_cache = self_.dc
                 ctx.solver.pop()
+                ctx.lin.pop()
                 return False
         return _Scope()
 
